@@ -178,7 +178,7 @@ func (h *H) foreign() {
 	bl := h.someBlob()
 	uniq := map[string]string{"n": fmt.Sprintf("%x", h.rng.U64())}
 	h.nForeign++
-	switch h.rng.Intn(13) {
+	switch h.rng.Intn(14) {
 	case 0: // another artifact type (config media type), artifactType field set too
 		b := h.imageManifest(cfgOther("application/vnd.example.sbom.config"), []any{plain(bl)}, plain(s), "application/spdx+json", uniq)
 		h.raw(descOf(mtImage, b), b, "foreign:other-config-type")
@@ -207,6 +207,13 @@ func (h *H) foreign() {
 		b := h.imageManifest(cfgNotation, []any{plain(s)}, plain(v), "", uniq)
 		d := descOf(mtImage, b)
 		h.raw(d, b, "near:subject-variant-layer-is-subject")
+		h.manis = append(h.manis, d)
+	case 13: // legacy notation manifest of a subject differing in one field, reaching s through its blobs
+		v := h.variant(s, h.rng.Intn(4))
+		h.addQuery(v)
+		b := mustJSON(map[string]any{"mediaType": mtArtifact, "artifactType": registry.ArtifactTypeNotation, "blobs": []any{plain(s)}, "subject": plain(v), "annotations": uniq})
+		d := descOf(mtArtifact, b)
+		h.raw(d, b, "near:legacy-subject-variant-blob-is-subject")
 		h.manis = append(h.manis, d)
 	case 7: // notation manifest without subject whose layer (or config) is s
 		var b []byte
